@@ -104,7 +104,7 @@ def build(cmd, choice):
         elif p["kind"] == "flag":
             opts.append("--" + dashed(p["name"]))
             kwargs[p["name"]] = True
-        elif (len(text) + len(cmd["name"]) + len(choice)) % 3 == 0 and " " not in text and text:
+        elif ((len(text) + len(cmd["name"]) + len(choice)) % 3 == 0 or "_" in text) and " " not in text and text:
             opts.append("--" + dashed(p["name"]) + "=" + text)       # the --option=value form
             kwargs[p["name"]] = val
         else:
